@@ -316,7 +316,7 @@ func conflict(c *CompCase) bool {
 }
 
 func genComp(t *rapid.T) CompCase {
-	keys := gen.Keys(t, 4, 14)
+	keys := gen.KeysWide(t, 4, 14)
 	nk := len(keys)
 	c := CompCase{Keys: keys,
 		MaxMem:    rapid.IntRange(1, 4).Draw(t, "maxmem"),
